@@ -104,6 +104,7 @@ fn main() {
         Some("impl") => run_impl(),
         Some("gen") => gen::main(&args[2..]),
         Some("search") => search::main(&args[2..]),
+        Some("replay") => search::replay(&args[2..]),
         _ => {
             eprintln!("usage: harness impl | gen <suite> <tier> <seed> <signatures.json> | search <prop> <tier> <seed> <outdir>");
             std::process::exit(2);
